@@ -188,7 +188,10 @@ func checkC05(c *Check, p *Program) {
 				expires = true
 			}
 		}
-		c.Decide(expires && op.Select.Blocking, "C05.X3", FuncName(op.Fn)+" relayed acknowledgement expires", pos, "select {ack <- res, <-time.After(config.ResendInterval), ...}", "the relayed acknowledgement does not expire after one resend interval: a stale acknowledgement can satisfy a later request that reuses the number")
+		// a non-blocking offer (select with default) on the unbuffered channel (obligation below) is taken by a sender
+		// that waits at this very moment or is gone at once: it expires immediately
+		instant := !op.Select.Blocking && len(op.Select.States) == 1
+		c.Decide((expires && op.Select.Blocking) || instant, "C05.X3", FuncName(op.Fn)+" relayed acknowledgement expires", pos, "select {ack <- res, <-time.After(config.ResendInterval), ...} or a non-blocking offer", "the relayed acknowledgement does not expire after one resend interval: a stale acknowledgement can satisfy a later request that reuses the number")
 	}
 	c.Floor("C05.X3", "relays onto Tunnel.ack", nRelay, 1)
 	// the hand-over channel itself holds nothing: a buffered channel would keep an acknowledgement that nobody
